@@ -2805,6 +2805,8 @@ class VM:
         ):  # arrow functions have no arguments object of their own
             arguments_obj = JSArray()
             arguments_obj._elements = list(args)
+            # an ordinary object as far as inheritance goes (not an Array)
+            arguments_obj._prototype = self._object_prototype()
             locals_list[arguments_slot] = arguments_obj
 
         # For named function expressions, bind the function name to itself
